@@ -719,6 +719,16 @@ func (s *Server) netServe() error {
 								var rwc io.ReadWriteCloser = conn
 								client.conn = rwc
 								if len(client.out) > 0 {
+									if s.aofdirty.Load() {
+										func() {
+											// prewrite, the pending replies may
+											// acknowledge writes of this packet.
+											s.mu.Lock()
+											defer s.mu.Unlock()
+											s.flushAOF(false)
+											s.aofdirty.Store(false)
+										}()
+									}
 									client.conn.Write(client.out)
 									client.out = nil
 								}
@@ -777,8 +787,10 @@ func (s *Server) netServe() error {
 							s.mu.Lock()
 							defer s.mu.Unlock()
 							s.flushAOF(false)
+							// clear the flag while still holding the lock: a write
+							// that is appended after the unlock must find it set.
+							s.aofdirty.Store(false)
 						}()
-						s.aofdirty.Store(false)
 					}
 					conn.Write(client.out)
 					client.out = nil
